@@ -254,6 +254,9 @@ def run(cfg):
         ('fits-one', s, [0, 1, big], cfg.pick(4, 5)),
         ('fits-two', 2 * s, [0, 1, big], cfg.pick(4, 5)),
         ('default', None, [0] + list(range(2, len(values))), cfg.pick(2, 3)),
+        # entries of different sizes where the larger one fills the cache exactly: a cached key is rewritten with a value
+        # that fits only when everything else is evicted (seeded change C16a needed this relation and was missed without it)
+        ('mixed-exact-fit', sizes[3], [0, 1, 3], cfg.pick(3, 5)),
     ]
     try:
         for name, limit, val_idx, depth in searches:
